@@ -311,7 +311,9 @@ func main() {
 				outf := filepath.Join(dir, fmt.Sprintf("out%d.json", ci))
 				b, _ := json.Marshal(chunks[ci])
 				os.WriteFile(in, b, 0o644)
-				cmd := exec.Command(self, "-worker", in, "-out", outf)
+				// a cap on the worker's address space: a runaway exploration dies with a Go
+				// fatal error (reported as an infrastructure error) instead of exhausting the host
+				cmd := exec.Command("/bin/sh", "-c", fmt.Sprintf("ulimit -v %d; exec %q -worker %q -out %q", 12<<20, self, in, outf))
 				cmd.Stderr = os.Stderr
 				err := cmd.Run()
 				q, rerr := ev.ReadPart(outf)
